@@ -1,3 +1,4 @@
+import RlModel.Gen.MergeHeap
 /-
 Array-embedded binary heaps as RisingLight uses them (C12):
   * `MergeIterator` (src/storage/secondary/merge_iterator.rs): its own min-heap over
@@ -66,6 +67,46 @@ def heapPop (cmp : β → β → Ordering) (h : List β) : Option (β × List β
 
 /-! ## MergeIterator -/
 
+/-- `replace_pending_data`'s loop with the loop bounds and child indices exactly as they are
+written in the source: `Gen/MergeHeap.lean` is regenerated from merge_iterator.rs on every run.
+(`siftDown` above is the reference formulation the invariant proofs are about; theorem
+`merge_heap_bounds` + `siftDownSrc_eq` tie the two.) -/
+def selChildSrc (cmp : β → β → Ordering) (h : List β) (i : Nat) (l : β) : Nat :=
+  if Gen.mergeRightOk (Gen.mergeRightIdx i) h.length then
+    match h[Gen.mergeRightIdx i]? with
+    | some r => if cmp l r == .gt then Gen.mergeRightIdx i else Gen.mergeLeftIdx i
+    | none => Gen.mergeLeftIdx i
+  else Gen.mergeLeftIdx i
+
+def siftDownSrc (cmp : β → β → Ordering) : Nat → List β → Nat → List β
+  | 0, h, _ => h
+  | fuel + 1, h, i =>
+    let len := h.length
+    let left := Gen.mergeLeftIdx i
+    if Gen.mergeLeftStop left len then h
+    else
+      match h[i]?, h[left]? with
+      | some x, some l =>
+        let sel : Nat := selChildSrc cmp h i l
+        match h[sel]? with
+        | some c => if cmp x c == .gt then siftDownSrc cmp fuel (swapAt h i sel) sel else h
+        | none => h
+      | _, _ => h
+
+/-- `replace_pending_data` -/
+def mergeReplaceRoot (cmp : β → β → Ordering) (h : List β) (x : β) : List β := siftDownSrc cmp h.length (h.set 0 x) 0
+
+/-- `pop_pending_data` -/
+def mergePop (cmp : β → β → Ordering) (h : List β) : Option (β × List β) :=
+  match h with
+  | [] => none
+  | r :: _ =>
+    match h.getLast? with
+    | none => none
+    | some last =>
+      let h' := h.dropLast
+      if h'.isEmpty then some (last, []) else some (r, mergeReplaceRoot cmp h' last)
+
 /-- One child iterator as the heap sees it: the row currently in the heap, the rest of the
 buffered chunk, the chunks not yet fetched. -/
 structure MEntry (α : Type) where
@@ -101,9 +142,9 @@ def mergeStep {α} (cmp : α → α → Ordering) (h : List (MEntry α)) : Optio
   | [] => none
   | e :: _ =>
     match e.buf with
-    | x :: xs => some (e.v, heapReplaceRoot (entryCmp cmp) h { e with v := x, buf := xs })
+    | x :: xs => some (e.v, mergeReplaceRoot (entryCmp cmp) h { e with v := x, buf := xs })
     | [] =>
-      match heapPop (entryCmp cmp) h with
+      match mergePop (entryCmp cmp) h with
       | none => none
       | some (_, h') =>
         match loadEntry e.id e.rest with
